@@ -405,7 +405,7 @@ impl Campaign for C07 {
     }
     fn runs(&self, tier: Tier) -> u64 {
         match tier {
-            Tier::Quick => 20_000 * 24,
+            Tier::Quick => 12_000 * 24,
             Tier::Thorough => 40_000 * 448,
         }
     }
